@@ -107,7 +107,7 @@ def run(ctx, replay_cases=None):
             case = slim(c)
             if ctx.match_known(cls, "monitor") is None:
                 key = json.dumps({k: v for k, v in cls.items() if k != "entry"}, sort_keys=True)
-                if key not in shrunk and len(shrunk) < 3:
+                if key not in shrunk and len(shrunk) < 2:
                     shrunk[key] = slim(L.shrink_tree(tool, ctx, c, "c19", lambda x, key=key: key in failing_keys(x)))
                 case = shrunk.get(key, case)
             ctx.fail("monitor", what, case, cls=cls)
